@@ -225,6 +225,19 @@ CLAIMED["C07"] = dict(
          "shaped siblings open). Nest-deeper edits are not generated. Two output channels throughout.",
     technique="TLA+ model of edit histories over a definitional evaluator, checked with TLC; histories replayed on VM and WASM",
 )
+CLAIMED["C14"] = dict(
+    category="model_checking",
+    text="FormatterTrace.tla is the formatter's contract as a trace specification: a Format(text, width, indent) event on a valid text "
+         "may only be the step in which the output parses, to the same syntax tree without spans, with the same comments in the same "
+         "order, and formatting it again returns it unchanged. The projections come from the real tokenizer and parser. Texts: every "
+         "LangGen program of the budget (TLC, exhaustive) printed in three layouts (plain, redundant parentheses, comments and line "
+         "breaks inside brackets), a table of the syntax forms outside Lang, and the shipped sources, at several widths and indent sizes.",
+    design_ref="DESIGN.md §6 C14",
+    note="The CST printer is experimental upstream: match / enum / type declarations, `if` without parentheses, comments after a comma "
+         "and at the end of the file are pinned findings (each by its text). Two local defects were repaired (`| |`, parameter "
+         "annotations and defaults).",
+    technique="TLC-enumerated programs printed in several layouts plus a syntax-form table, formatted by the real formatter; recorded Format events validated against a TLA+ contract (trace specification)",
+)
 CLAIMED["C15"] = dict(
     category="model_checking",
     text="Session.tla models a compilation session (process-wide interner, anonymous-function counter, hash seed; several processes) "
